@@ -37,7 +37,7 @@ Init == idx = 0
 Next == idx < Len(Recs) /\ idx' = idx + 1
 Spec == Init /\ [][Next]_idx
 
-ClauseNames == {"C12_PathFixed", "C12_OneUsername", "C12_UsernameDecodesToName", "C12_OneServerId", "C12_ServerIdIsHash",
+ClauseNames == {"C12_EveryLoginIsAsked", "C12_OverlappingLoginsEachAsked", "C12_PathFixed", "C12_OneUsername", "C12_UsernameDecodesToName", "C12_OneServerId", "C12_ServerIdIsHash",
                 "C12_NoOtherParams", "C12_ErrorOnBadReply", "C11_RequestCarriesSignedHex", "C01_IdentityOnlyFromReply", "Note_HashIsSignedHex", "Note_ProfileFromReply"}
 
 IsBytes(s) == \A i \in 1..Len(s) : s[i] \in 0..255
@@ -53,21 +53,28 @@ Clause(cl, r, ps) ==
         Uname(p) == AllAre(p, KUser, r.vec.name)      OneU(p) == OneOf(p, KUser)
         Sid(p)   == AllAre(p, KSid, r.hash)           OneS(p) == OneOf(p, KSid)
         SidMc(p) == AllAre(p, KSid, H!SignedHex(r.vec.digest))
+        IsPair == "hash2" \in DOMAIN r
     IN CASE cl = "C12_PathFixed"             -> Each(PathFixed)
+         \* a login is accepted only on the strength of a request made FOR IT (none is answered from what an earlier login was told) ...
+         [] cl = "C12_EveryLoginIsAsked"     -> (~IsPair /\ r.result = "ok") => Len(ps) >= 1
+         \* ... also when two logins claiming the same name overlap in time: each connection's own hash is asked about
+         [] cl = "C12_OverlappingLoginsEachAsked" -> (IsPair /\ r.result = "ok" /\ r.result2 = "ok") =>
+                                                       /\ \E k \in 1..Len(ps) : AllAre(ps[k], KSid, r.hash)
+                                                       /\ \E k \in 1..Len(ps) : AllAre(ps[k], KSid, r.hash2)
          [] cl = "C12_OneUsername"           -> Each(OneU)
          [] cl = "C12_UsernameDecodesToName" -> Each(Uname)
          [] cl = "C12_OneServerId"           -> Each(OneS)
-         [] cl = "C12_ServerIdIsHash"        -> Each(Sid)
+         [] cl = "C12_ServerIdIsHash"        -> IsPair \/ Each(Sid)
          [] cl = "C12_NoOtherParams"         -> Each(NoOtherParams)
-         [] cl = "C12_ErrorOnBadReply"       -> (r.vec.script # "ok" \/ Len(ps) = 0) => r.result = "err"
+         [] cl = "C12_ErrorOnBadReply"       -> (r.vec.script \notin {"ok", "slowok"} \/ Len(ps) = 0) => r.result = "err"
          \* C11: the hash that is actually sent to the session service is Minecraft's signed hex of SHA-1(configured server id, secret, key)
-         [] cl = "C11_RequestCarriesSignedHex" -> Each(SidMc)
+         [] cl = "C11_RequestCarriesSignedHex" -> IsPair \/ Each(SidMc)
          \* C01 at the adapter: an identity is reported as vouched for only if the service's answer carried exactly that identity
          \* (an answer without a profile -- an error object, an object without id or name -- vouches for nobody)
-         [] cl = "C01_IdentityOnlyFromReply" -> r.result = "ok" => /\ r.vec.script \in {"ok", "500profile", "300profile"}
+         [] cl = "C01_IdentityOnlyFromReply" -> r.result = "ok" => /\ r.vec.script \in {"ok", "slowok", "500profile", "300profile"}
                                                                    /\ r.profile.id = r.vec.reply_id /\ r.profile.name = r.vec.reply_name
          [] cl = "Note_HashIsSignedHex"      -> r.hash = H!SignedHex(r.vec.digest)
-         [] cl = "Note_ProfileFromReply"     -> (r.vec.script = "ok" /\ Len(ps) >= 1)
+         [] cl = "Note_ProfileFromReply"     -> (r.vec.script \in {"ok", "slowok"} /\ Len(ps) >= 1)
                                                    => (r.result = "ok" /\ r.profile.id = r.vec.reply_id /\ r.profile.name = r.vec.reply_name)
 
 RECURSIVE ParseAll(_, _, _)
